@@ -129,6 +129,58 @@ def chains(rnd, n_chains, rounds=5):
     return n, fails
 
 
+def _mixed_reproduce(args):
+    """clause (a) is stated for any subscriptions: after every change of a chain with *different* subscriptions (a member
+    leaves, a member joins with any subscription) the unchanged group is assigned again and has to get exactly what it
+    had - the result of a rebalance must be a fixed point of the assignor"""
+    seed, count = args
+    rnd = random.Random(seed)
+    A = assignors()["sticky"]
+    n, fails = 0, []
+    for _ in range(count):
+        nt = rnd.randint(2, 4)
+        topics = ["t%d" % i for i in range(nt)]
+        parts = {t: rnd.randint(1, 5) for t in topics}
+        subs = {"m%d" % i: rnd.sample(topics, rnd.randint(1, nt)) for i in range(rnd.randint(2, 5))}
+        res = run(A, parts, subs)
+        gen = 1
+        for _r in range(4):
+            prev = {m: tps(v) for m, v in res.items()}
+            members = sorted(subs)
+            if rnd.random() < 0.5 and len(members) > 1:
+                gone = rnd.choice(members)
+                subs2 = {m: subs[m] for m in members if m != gone}
+                kind = "after %s left" % gone
+            else:
+                subs2 = dict(subs)
+                subs2["j%d" % gen] = rnd.sample(topics, rnd.randint(1, nt))
+                kind = "after j%d joined" % gen
+            res2 = run(A, parts, subs2, previous=prev, generation=gen)
+            gen += 1
+            prev2 = {m: tps(v) for m, v in res2.items()}
+            res3 = run(A, parts, subs2, previous=prev2, generation=gen)
+            gen += 1
+            n += 1
+            if {m: sorted(v) for m, v in res2.items()} != {m: sorted(v) for m, v in res3.items()}:
+                moved = sorted(tp for m, v in res2.items() for tp in v if tp not in res3.get(m, []))
+                fails.append({"kind": "identical " + kind, "partitions": parts, "subscriptions": subs2,
+                              "assignment": {m: sorted(v) for m, v in res2.items()},
+                              "errors": ["unchanged group, %r moved" % (moved[:4],)]})
+                break
+            subs, res = subs2, res3
+    return n, fails
+
+
+def mixed_reproduce_chains(seed, n_chains, jobs=16):
+    per = max(1, n_chains // (jobs * 2))
+    n, fails = 0, []
+    with mp.Pool(jobs) as pool:
+        for a, f in pool.imap_unordered(_mixed_reproduce, [(seed * 1000 + i, per) for i in range(jobs * 2)]):
+            n += a
+            fails.extend(f)
+    return n, fails
+
+
 def _scale_chain(args):
     """members join one at a time up to max_m, stay one round, then leave one at a time"""
     ntopics, nparts, descending, stranger, max_m = args[:5]
@@ -209,11 +261,26 @@ def main():
                    "subscribes to, and 2..3 topics of uneven size listed by every member in reverse alphabetical order: members join one at a time up to %d, one identical round, then leave one at a time "
                    "(every round checked against a/b/c)" % (mp_, mm),
           "failures": fails[:20], "failures_total": len(fails), "replay": {"script": REPLAY_SCALE}})
+    n, fails = mixed_reproduce_chains(a.seed, 3000 if a.tier == "quick" else 60000)
+    emit({"name": "sticky-reproduces-after-every-change", "exhaustive": False, "cases": n, "distinct_nontrivial": n,
+          "bound": "seeded chains of 4 changes (a member leaves / a member joins with any subscription; 2..5 members with "
+                   "different subscriptions over 2..4 topics of 1..5 partitions), each followed by an unchanged rebalance that "
+                   "has to reproduce the assignment (clause a), seed %d" % a.seed,
+          "failures": fails[:10], "failures_total": len(fails), "replay": {"script": REPLAY_MIXED % a.seed}})
     n, fails = chains(random.Random(a.seed), nch)
     emit({"name": "sticky-chains-random", "exhaustive": False, "cases": n, "distinct_nontrivial": n,
           "bound": "%d seeded chains of up to 5 rounds (members leave / join / stay, equal subscriptions, every other chain with "
                    "member-specific topic order; cluster topics nobody subscribes to occur), seed %d" % (nch, a.seed),
           "failures": fails[:60], "failures_total": len(fails), "replay": {"script": REPLAY_CHAINS % a.seed}})
+
+
+REPLAY_MIXED = '''
+import sys
+sys.path.insert(0, "/verif")
+from bounded import C15
+n, fails = C15.mixed_reproduce_chains(%d, 3000, jobs=8)
+VIOLATED = bool(fails); DETAIL = "%%d of %%d unchanged rebalances did not reproduce the assignment; first: %%r" %% (len(fails), n, fails[:1])
+'''
 
 
 REPLAY = '''
